@@ -154,7 +154,6 @@ use crate::{
     AsBytes,
     BuildBytes,
     ParseBytes,
-    ParseBytesZC,
     UnsizedCopy,
 )]
 #[repr(C)]
@@ -198,6 +197,47 @@ pub struct ZoneMD<Digest: ?Sized = [u8]> {
     /// The digest is required to be 12 bytes or more in size, but it is
     /// generally not advisable to truncate cryptographic hash functions.
     pub digest: Digest,
+}
+
+//--- Parsing from bytes
+
+impl ZoneMD {
+    /// The minimum size of the digest field.
+    ///
+    /// As specified by [RFC 8976, section 2.2.4], "the Digest field MUST NOT
+    /// be shorter than 12 octets".
+    ///
+    /// [RFC 8976, section 2.2.4]: https://datatracker.ietf.org/doc/html/rfc8976#section-2.2.4
+    pub const MIN_DIGEST_SIZE: usize = 12;
+}
+
+// SAFETY: This is the implementation '#[derive(ParseBytesZC)]' would have
+// generated, with an additional check on the size of the digest.  It always
+// parses the entirety of the input on success.
+unsafe impl<Digest: ?Sized + ParseBytesZC> ParseBytesZC for ZoneMD<Digest> {
+    fn parse_bytes_by_ref(bytes: &[u8]) -> Result<&Self, ParseError> {
+        let start = bytes.as_ptr();
+        let (_, bytes) = Serial::split_bytes_by_ref(bytes)?;
+        let (_, bytes) = ZoneMDScheme::split_bytes_by_ref(bytes)?;
+        let (_, bytes) = ZoneMDHashAlg::split_bytes_by_ref(bytes)?;
+
+        // The digest must not be shorter than 12 octets.
+        if bytes.len() < ZoneMD::MIN_DIGEST_SIZE {
+            return Err(ParseError);
+        }
+
+        let last = Digest::parse_bytes_by_ref(bytes)?;
+        let ptr = Digest::ptr_with_addr(last, start as *const ());
+
+        // SAFETY:
+        // - The original 'bytes' contained a valid instance of every field
+        //   in 'Self', in succession.
+        // - Every field implements 'ParseBytesZC' and so has no alignment
+        //   restriction; 'Self' is thus unaligned.
+        // - 'ptr' has the same address as 'start' but can be cast to 'Self',
+        //   since it has the right pointer metadata.
+        Ok(unsafe { &*(ptr as *const Self) })
+    }
 }
 
 //--- Formatting
